@@ -567,7 +567,18 @@ Definition C07_round (c : ccfg) (r : round) : option string :=
                                                   match observed_generation child with
                                                   | Some og => Z.ltb 0 og && Z.ltb og (get_generation child) | None => false end)
                             | None => false end end) on_latest
-                      then None else Some "gated-move-although-a-child-on-latest-is-not-healthy"
+                      then
+                        (* the move is announced: the Updated condition written in this sync says so *)
+                        match k_parent (r_cache r) with
+                        | Some parent =>
+                            match status_write_cond c parent (r_events r) with
+                            | Some cond => if String.eqb (cond_field cond "reason") "RolloutProgressing" then None
+                                           else Some "gated-move-not-reported-as-progressing"
+                            | None => None
+                            end
+                        | None => None
+                        end
+                      else Some "gated-move-although-a-child-on-latest-is-not-healthy"
                   | [] => Some "gated-move-of-undesired-child"
                   end
               | [] => None
